@@ -35,7 +35,7 @@ ASSUMPTIONS = ["pvm/ref/ofactions.py states the 1.0 action semantics",
                "a UDP checksum of 0 may stay 0 or be computed after a "
                "rewrite; rx counters may or may not count OFPP_TABLE "
                "re-injection"]
-REQUIRED = ["cases", "emitted_frames_compared", "rewrites_checked",
+REQUIRED = ["frames_of_a_source_port_sweep", "cases", "emitted_frames_compared", "rewrites_checked",
             "checksums_verified", "flood_all_cases", "suppressed_by_port_rule",
             "ingress_dropped", "counters_compared", "controller_outputs",
             "flow_hits", "packet_outs",
@@ -729,6 +729,29 @@ def gen_exhaustive (shard, nshards):
                    desc=desc, probe=(i % 7 == 0))
 
 
+def gen_sweep (rng, n, start):
+  """One TCP and one UDP conversation with the source port swept through n
+  values, rewritten and sent on: the checksums the switch writes are right for
+  every one of them (sums that carry twice when folded are a small fraction
+  of all frames, and a sweep meets them)."""
+  src = bytes.fromhex("020000000001"); dst = bytes.fromhex("020000000002")
+  cfg = {str(p): 0 for p in range(1, NPORTS + 1)}
+  for i in range(n):
+    sp = (start + i) & 0xffff
+    if i % 2:
+      l4 = F.tcp(sp, 80, b"sweep" * 3, seq=1, src=0x0a000001, dst=0x0a000002)
+      raw = F.eth(dst, src, 0x0800, F.ipv4(0x0a000001, 0x0a000002, 6, l4, ident=7))
+      kind = "tcp"
+    else:
+      l4 = F.udp(sp, 53, b"sweep" * 3, src=0x0a000001, dst=0x0a000002)
+      raw = F.eth(dst, src, 0x0800, F.ipv4(0x0a000001, 0x0a000002, 17, l4, ident=7))
+      kind = "udp"
+    yield dict(frame=raw, in_port=1, cfg=cfg, via="packet_out",
+               actions=[dict(type=7, nw_addr=0xc0a80000 | (i & 0xff)), dict(type=10, tp_port=8080),
+                        dict(type=0, port=2, max_len=0)],
+               desc=dict(kind=kind, tagged=False), probe=False, sweep=True)
+
+
 def gen_portcfg (rng, n):
   """All 64 config combinations on port 3 x 4 on port 1 (the ingress)."""
   for c3 in range(64):
@@ -763,10 +786,12 @@ def plan (tier, seed):
   if tier == "quick":
     return ([dict(mode="rand", n=1500, sub=i) for i in range(12)] +
             [dict(mode="cfg", sub=0)] +
-            [dict(mode="exh", shard=i, nshards=12) for i in range(3)])
+            [dict(mode="exh", shard=i, nshards=12) for i in range(3)] +
+            [dict(mode="sweep", n=16384, start=16384 * i, sub=i) for i in range(4)])
   return ([dict(mode="rand", n=120000, sub=i) for i in range(48)] +
           [dict(mode="cfg", sub=i) for i in range(4)] +
-          [dict(mode="exh", shard=i, nshards=4) for i in range(4)])
+          [dict(mode="exh", shard=i, nshards=4) for i in range(4)] +
+          [dict(mode="sweep", n=16384, start=4096 * i, sub=i) for i in range(16)])
 
 
 def run (spec, rep):
@@ -776,10 +801,13 @@ def run (spec, rep):
     g = (gen_case(rng) for _ in range(spec["n"]))
   elif spec["mode"] == "cfg":
     g = gen_portcfg(rng, 0)
+  elif spec["mode"] == "sweep":
+    g = gen_sweep(rng, spec["n"], spec["start"])
   else:
     g = gen_exhaustive(spec["shard"], spec["nshards"])
   first = True
   for case in g:
+    if case.get("sweep"): rep.count("frames_of_a_source_port_sweep")
     do_case(case, rep)
     if first: rep.sample(case); first = False
 
